@@ -9,5 +9,5 @@ CONSTANTS
   AttrKeys <- MCAttrKeys
   ValKinds <- MCValKinds
   ConstNames <- AllConstNames
-INVARIANTS FormatsConsistent EnabledLattice VerbosityLattice OnlyTraceRenamed NoTimeUnlessAsked KEmit
+INVARIANTS FormatsConsistent EnabledLattice VerbosityLattice OnlyTraceRenamed NoTimeUnlessAsked RelevelIdentity KEmit
 CHECK_DEADLOCK FALSE
